@@ -94,6 +94,21 @@ BAIT = [
 ]
 
 
+def pseudo_operand(r, name):
+    """Operand spellings as solc writes them (see the shipped examples)."""
+    if name in ("PUSH [tag]",):
+        return str(r.randrange(1, 40))
+    if name in ("PUSH #[$]", "PUSH [$]"):
+        return "%064x" % r.choice([0, 0, 1, 2, 10, 11, 16, 255])
+    if name == "PUSH data":
+        return r.choice(["%064X" % r.getrandbits(256), "0A%062X" % r.getrandbits(248), "%064X" % r.getrandbits(200)])
+    if name == "PUSHLIB":
+        return r.choice(["%064x" % r.getrandbits(256), "__$%030x$__" % r.getrandbits(120)]) if False else "%064x" % r.getrandbits(256)
+    if name in ("PUSHIMMUTABLE", "ASSIGNIMMUTABLE"):
+        return str(r.choice([216, 218, 220, 689, 1167, 0xabc if False else 1168]))
+    return "%x" % r.randrange(1, 64)
+
+
 class Gen:
     def __init__(self, rng, profile=None):
         self.rng = rng
@@ -133,7 +148,7 @@ class Gen:
         if x < 0.95 or not self.p.get("pseudo"):
             return ("env", r.choice(ENV0))
         name, hasv = r.choice(PSEUDO)
-        return ("pseudo", name, "%x" % r.choice([1, 2, 3, 0x10, 0xabc]) if hasv else None)
+        return ("pseudo", name, pseudo_operand(r, name) if hasv else None)
 
     def tree(self, h0, depth):
         r = self.rng
@@ -262,7 +277,7 @@ class Gen:
                 self.compile(("const", r.choice([0, 0x20, 0x40, 4, 0x80])))
         value = None
         if name == "ASSIGNIMMUTABLE":
-            value = "%x" % r.choice([1, 2, 0x1234])
+            value = pseudo_operand(r, name)
         self.emit(name, value, n, 1 if name in SPLIT_PUSHES else 0)
 
     def ending(self):
@@ -270,7 +285,7 @@ class Gen:
         x = r.random()
         def dest():
             if self.p.get("pseudo"):
-                self.emit("PUSH [tag]", "%x" % r.randrange(1, 40), 0, 1)
+                self.emit("PUSH [tag]", str(r.randrange(1, 40)), 0, 1)
             else:
                 self.push_const(r.randrange(1, 400))
         if x < 0.25:
